@@ -305,6 +305,10 @@ func (c *converter) trackAddedIngress() {
 		if port > 0 {
 			ctx = convtypes.ResourceHATCPService
 		}
+		if port == 0 && ing.Spec.DefaultBackend != nil && c.haproxy.Hosts().FindHost(hatypes.DefaultHost) != nil {
+			// the default backend is the root path of the default host
+			c.tracker.TrackNames(convtypes.ResourceIngress, name, ctx, hatypes.DefaultHost)
+		}
 		if port == 0 {
 			// hosts might be declared only in the tls attribute
 			for _, tls := range ing.Spec.TLS {
